@@ -36,7 +36,7 @@ func c13Env() map[string]any {
 		"n": 5, "k": 2, "f": 1.5, "s": "str", "e": "", "t": true, "b": false, "ns": "42",
 		"sp1": "a b", "sp2": "a  b", "up": "A  b",
 		// variables whose names strconv would take for a boolean or a float
-		"T": 2, "nan": 4, "F": "eff", "big": 300, "minus": -1, "zp": "010", "zip": "08540", "eq3": "a===b", "ne3": "a!==b", "amp2": "a && b", "q3": "a ? b : c",
+		"T": 2, "nan": 4, "F": "eff", "big": 300, "minus": -1, "fbig": 1500000.0, "fsmall": 0.00002, "fneg": -2.5e7, "zp": "010", "zip": "08540", "eq3": "a===b", "ne3": "a!==b", "amp2": "a && b", "q3": "a ? b : c",
 		"m":  map[string]any{"k": "mk", "l": []any{"x", "y"}, "n": 7},
 		"l":  []int{10, 20},
 		"st": c13Struct{Field: "SF", Num: 3},
@@ -681,6 +681,13 @@ func init() {
 				{"len(s) + one", "int:4"}, {"type == 'post' && last > max", "bool:true"}, {"n + 1", "int:6"},
 			} {
 				emit(&c13Case{Part: "shadow", Expr: e.src, Shape: "variable-named-like-a-library-function", Want: e.want})
+			}
+			// floats whose string form has an exponent: one value, one text in every position
+			for _, e := range []struct {
+				src string
+				f   float64
+			}{{"fbig", 1500000.0}, {"fsmall", 0.00002}, {"fneg", -2.5e7}, {"fbig * k", 3000000.0}, {"k > 1 ? fbig : fsmall", 1500000.0}, {"fbig + 0.5", 1500000.5}} {
+				emit(&c13Case{Part: "expr", Expr: e.src, Shape: "float-magnitude", Want: c13V{T: "float", F: e.f}.canon()})
 			}
 			// shadow part: 15 expressions over variables named like functions of the expression library (type, date, last, one, first, min, max, count, sum, map, filter, keys) in the 5 positions; retype part: every expression of depth <= 1 (leaves and one operator) and the documented call forms
 			c13Exprs(1, func(e c13E) {
